@@ -23,6 +23,12 @@ pub struct Norm {
     pub nloops: usize,
     pub nrets: usize,
     tmp: usize,
+    hint: String,
+    names: BTreeMap<String, usize>,
+    /// (span of the initialiser, declared type) of the `let` being visited, so a collect() that IS the
+    /// initialiser can give its accumulator the declared type
+    let_ctx: Option<((usize, usize, usize, usize), syn::Type)>,
+    out_ty: Option<syn::Type>,
     from_fn: BTreeMap<usize, usize>,
     from_fn_idx: usize,
 }
@@ -167,6 +173,22 @@ fn parse_iter(e: &Expr, bare_ok: bool) -> Option<Iter> {
     }
 }
 
+fn span_key(s: Span) -> (usize, usize, usize, usize) {
+    (s.start().line, s.start().column, s.end().line, s.end().column)
+}
+
+fn pat_hint(p: &Pat) -> String {
+    struct V(Vec<String>);
+    impl<'a> Visit<'a> for V {
+        fn visit_pat_ident(&mut self, i: &'a syn::PatIdent) {
+            self.0.push(i.ident.to_string());
+        }
+    }
+    let mut v = V(vec![]);
+    v.visit_pat(p);
+    v.0.last().cloned().unwrap_or_default().trim_start_matches('_').to_string()
+}
+
 struct HasReturn(bool);
 impl<'a> Visit<'a> for HasReturn {
     fn visit_expr_return(&mut self, _: &'a syn::ExprReturn) {
@@ -180,17 +202,23 @@ impl<'a> Visit<'a> for HasReturn {
 
 impl Norm {
     pub fn new(from_fn: BTreeMap<usize, usize>) -> Self {
-        Norm { rules: vec![], dropped: vec![], errors: vec![], nloops: 0, nrets: 0, tmp: 0, from_fn, from_fn_idx: 0 }
+        Norm { rules: vec![], dropped: vec![], errors: vec![], nloops: 0, nrets: 0, tmp: 0, hint: String::new(), names: BTreeMap::new(), let_ctx: None, out_ty: None, from_fn, from_fn_idx: 0 }
     }
 
     fn rule(&mut self, r: &str, sp: Span, note: &str) {
         self.rules.push(RuleApp { rule: r.into(), line: sp.start().line, note: note.into() });
     }
 
+    /// Generated names are derived from the user's own binder (`hint`) so that they stay stable when
+    /// unrelated code is added elsewhere in the function: `__i_pis_i`, `__hi_pis_i`, `__out_left_bits`, ...
     fn fresh(&mut self, base: &str) -> Ident {
-        let k = self.tmp;
+        let hint = self.hint.clone();
+        let stem = if hint.is_empty() { format!("__{base}") } else { format!("__{base}_{hint}") };
+        let k = self.names.entry(stem.clone()).or_insert(0);
+        let name = if *k == 0 { stem.clone() } else { format!("{stem}_{k}") };
+        *k += 1;
         self.tmp += 1;
-        id(&format!("__{base}{k}"))
+        id(&name)
     }
 
     pub fn run_fn(&mut self, sig: &mut syn::Signature, block: &mut Block, named_ret: bool) {
@@ -243,6 +271,13 @@ impl Norm {
     /// Build the statements that iterate `it`, binding `pat` in each iteration and running `body`.
     /// Returns None if the adapter combination is outside the rule list.
     fn emit_loop(&mut self, it: &Iter, pat: &Pat, body: Vec<Stmt>, sp: Span) -> Option<Vec<Stmt>> {
+        let saved = std::mem::replace(&mut self.hint, pat_hint(pat));
+        let r = self.emit_loop_inner(it, pat, body, sp);
+        self.hint = saved;
+        r
+    }
+
+    fn emit_loop_inner(&mut self, it: &Iter, pat: &Pat, body: Vec<Stmt>, sp: Span) -> Option<Vec<Stmt>> {
         let mut pre: Vec<Stmt> = vec![];
         let mut ads = it.adapters.clone();
         // N1: reversed range
@@ -268,8 +303,23 @@ impl Norm {
             return None; // plain range: native
         }
         // N2: indexable source with take / enumerate / zip / skip
+        let (idx, lo, hi, elem, notes) = self.lower_iter(it, &mut pre)?;
+        self.rule("N2", sp, &format!("for over slice iterator [{}] -> index loop", notes));
+        let f: Stmt = parse_quote!(for #idx in #lo..#hi {
+            let #pat = #elem;
+            __vx_loop_body_here!();
+            #(#body)*
+        });
+        pre.push(f);
+        Some(pre)
+    }
+
+    /// Lower an indexable iterator (slice/Vec/array `.iter()`, `.into_iter()`, `&x`) with
+    /// `skip/take/zip/enumerate` adapters to (index var, lo, hi, element expression).
+    fn lower_iter(&mut self, it: &Iter, pre: &mut Vec<Stmt>) -> Option<(Ident, Expr, Expr, Expr, String)> {
+        let mut ads = it.adapters.clone();
         let Src::Index { base, by_ref } = &it.src else { return None };
-        let base = self.bind_simple(base.clone(), "src", &mut pre);
+        let base = self.bind_simple(base.clone(), "src", pre);
         let idx = self.fresh("i");
         let mut hi: Expr = parse_quote!(#base.len());
         let mut lo: Expr = parse_quote!(0);
@@ -281,7 +331,7 @@ impl Norm {
             match ads.remove(0) {
                 Adapter::Take(n) => {
                     if enumerate { return None; }
-                    let n = self.bind_simple(n, "take", &mut pre);
+                    let n = self.bind_simple(n, "take", pre);
                     let h = self.fresh("hi");
                     let lo_c = lo.clone();
                     pre.push(parse_quote!(let #h = if #n < #hi - #lo_c { #lo_c + #n } else { #hi };));
@@ -290,7 +340,7 @@ impl Norm {
                 }
                 Adapter::Skip(k) => {
                     if enumerate { return None; }
-                    let k = self.bind_simple(k, "skip", &mut pre);
+                    let k = self.bind_simple(k, "skip", pre);
                     let l = self.fresh("lo");
                     pre.push(parse_quote!(let #l = if #k < #hi { #k } else { #hi };));
                     lo = parse_quote!(#l);
@@ -299,7 +349,7 @@ impl Norm {
                 Adapter::Zip(o) => {
                     if enumerate || !o.adapters.is_empty() { return None; }
                     let Src::Index { base: ob, by_ref: obr } = &o.src else { return None };
-                    let ob = self.bind_simple(ob.clone(), "zsrc", &mut pre);
+                    let ob = self.bind_simple(ob.clone(), "zsrc", pre);
                     let h = self.fresh("hi");
                     // only valid with lo == 0 (no skip before zip)
                     if notes.contains(&"skip") { return None; }
@@ -318,14 +368,51 @@ impl Norm {
                 Adapter::Rev | Adapter::Map(_) => return None,
             }
         }
-        self.rule("N2", sp, &format!("for over slice iterator [{}] -> index loop", notes.join(",")));
-        let f: Stmt = parse_quote!(for #idx in #lo..#hi {
-            let #pat = #elem;
-            __vx_loop_body_here!();
-            #(#body)*
-        });
-        pre.push(f);
-        Some(pre)
+        Some((idx, lo, hi, elem, notes.join(",")))
+    }
+
+    /// N6: `<iter>.all(|p| E)` / `.any(|p| E)` / `.position(|p| E)` -> short-circuiting while loop.
+    fn search_to_block(&mut self, it: &Iter, kind: &str, c: &syn::ExprClosure, sp: Span) -> Option<Expr> {
+        let (pat, stmts, val) = self.closure_parts(c)?;
+        let saved = std::mem::replace(&mut self.hint, pat_hint(&pat));
+        let r = self.search_to_block_inner(it, kind, pat, stmts, val, sp);
+        self.hint = saved;
+        r
+    }
+
+    fn search_to_block_inner(&mut self, it: &Iter, kind: &str, pat: Pat, stmts: Vec<Stmt>, val: Expr, sp: Span) -> Option<Expr> {
+        let mut pre: Vec<Stmt> = vec![];
+        let (idx, lo, hi, elem, _notes) = match (&it.src, it.adapters.is_empty()) {
+            (Src::Range { lo, hi }, true) => {
+                let idx = self.fresh("i");
+                let lo = self.bind_simple(lo.clone(), "lo", &mut pre);
+                let hi = self.bind_simple(hi.clone(), "hi", &mut pre);
+                let e: Expr = parse_quote!(#idx);
+                (idx, lo, hi, e, String::new())
+            }
+            _ => self.lower_iter(it, &mut pre)?,
+        };
+        let acc = self.fresh(kind);
+        self.rule("N6", sp, &format!(".{kind}(closure) -> short-circuiting index loop"));
+        let (init, cond, hit): (Expr, Expr, Stmt) = match kind {
+            "all" => (parse_quote!(true), parse_quote!(#acc), parse_quote!(if !(#val) { #acc = false; })),
+            "any" => (parse_quote!(false), parse_quote!(!#acc), parse_quote!(if #val { #acc = true; })),
+            "position" => (parse_quote!(None), parse_quote!(#acc.is_none()), parse_quote!(if #val { #acc = Some(#idx - #lo); })),
+            _ => return None,
+        };
+        Some(parse_quote!({
+            #(#pre)*
+            let mut #acc = #init;
+            let mut #idx = #lo;
+            while #cond && #idx < #hi {
+                let #pat = #elem;
+                __vx_loop_body_here!();
+                #(#stmts)*
+                #hit
+                #idx = #idx + 1;
+            }
+            #acc
+        }))
     }
 
     fn closure_parts(&mut self, c: &syn::ExprClosure) -> Option<(Pat, Vec<Stmt>, Expr)> {
@@ -357,6 +444,18 @@ impl Norm {
 
     /// N5: `<iter>[.map(|p| E)].collect()` -> block expression with a push loop.
     fn collect_to_block(&mut self, it: &Iter, sp: Span) -> Option<Expr> {
+        let saved = self.hint.clone();
+        if self.hint.is_empty() {
+            if let Some(Adapter::Map(c)) = it.adapters.last() {
+                if c.inputs.len() == 1 { self.hint = pat_hint(&c.inputs[0]); }
+            }
+        }
+        let r = self.collect_to_block_inner(it, sp);
+        self.hint = saved;
+        r
+    }
+
+    fn collect_to_block_inner(&mut self, it: &Iter, sp: Span) -> Option<Expr> {
         let mut it = it.clone();
         let map = match it.adapters.last() {
             Some(Adapter::Map(c)) => {
@@ -385,8 +484,12 @@ impl Norm {
             _ => self.emit_loop(&it, &pat, body, sp)?,
         };
         self.rule("N5", sp, "iterator .map(..).collect() -> push loop");
+        let decl: Stmt = match self.out_ty.take() {
+            Some(ty) => parse_quote!(let mut #out: #ty = Vec::new();),
+            None => parse_quote!(let mut #out = Vec::new();),
+        };
         Some(parse_quote!({
-            let mut #out = Vec::new();
+            #decl
             #(#loop_stmts)*
             #out
         }))
@@ -501,7 +604,14 @@ impl<'a> VisitMut for Rewriter<'a> {
 
     fn visit_local_mut(&mut self, l: &mut syn::Local) {
         l.attrs.clear();
+        let saved = std::mem::replace(&mut self.n.hint, pat_hint(&l.pat));
+        let saved_ctx = self.n.let_ctx.take();
+        if let (Pat::Type(pt), Some(init)) = (&l.pat, &l.init) {
+            self.n.let_ctx = Some((span_key(init.expr.span()), (*pt.ty).clone()));
+        }
         visit_mut::visit_local_mut(self, l);
+        self.n.let_ctx = saved_ctx;
+        self.n.hint = saved;
     }
 
     fn visit_expr_mut(&mut self, e: &mut Expr) {
@@ -514,6 +624,10 @@ impl<'a> VisitMut for Rewriter<'a> {
                 let name = m.method.to_string();
                 match (name.as_str(), m.args.len()) {
                     ("collect", 0) => {
+                        self.n.out_ty = match &self.n.let_ctx {
+                            Some((k, ty)) if *k == span_key(sp) => Some(ty.clone()),
+                            _ => None,
+                        };
                         if let Some(it) = parse_iter(&m.receiver, false) {
                             match self.n.collect_to_block(&it, sp) {
                                 Some(b) => replacement = Some(b),
@@ -521,6 +635,17 @@ impl<'a> VisitMut for Rewriter<'a> {
                             }
                         } else {
                             self.n.errors.push(format!("unsupported collect chain at source line {}", sp.start().line));
+                        }
+                    }
+                    ("all", 1) | ("any", 1) | ("position", 1) => {
+                        if let (Some(it), Expr::Closure(c)) = (parse_iter(&m.receiver, false), strip_paren(&m.args[0])) {
+                            let c = c.clone();
+                            match self.n.search_to_block(&it, &name, &c, sp) {
+                                Some(b) => replacement = Some(b),
+                                None => self.n.errors.push(format!("unsupported .{name}() chain at source line {}", sp.start().line)),
+                            }
+                        } else {
+                            self.n.errors.push(format!("unsupported .{name}() receiver at source line {}", sp.start().line));
                         }
                     }
                     ("expect", 1) => {
